@@ -246,7 +246,9 @@ LoadStatus DepsLog::Load(const string& path, State* state, string* err) {
         ++unique_dep_record_count;
     } else {
       int path_size = size - 4;
-      if (path_size <= 0) {
+      // Path records are always padded to a multiple of four bytes; anything
+      // else is damage (and would make the checksum load below misaligned).
+      if (path_size <= 0 || (size % 4) != 0) {
         read_failed = true;
         break;
       }
